@@ -78,8 +78,9 @@ func NegateGoal(goal string) (decls []string, asserts []string) {
 			fresh := fmt.Sprintf("%s!sk%d", name, skCounter)
 			decls = append(decls, fmt.Sprintf("(declare-const %s %s)", fresh, rest[0]))
 			re := regexp.MustCompile(`([\s()])` + regexp.QuoteMeta(name) + `([\s()])`)
+			repl := strings.ReplaceAll(fresh, "$", "$$")
 			for i := 0; i < 2; i++ { // twice: adjacent occurrences share a delimiter
-				body = re.ReplaceAllString(body, "${1}"+fresh+"${2}")
+				body = re.ReplaceAllString(body, "${1}"+repl+"${2}")
 			}
 		}
 		d, a := NegateGoal(body)
